@@ -584,6 +584,8 @@ type equivSys struct {
 	pending map[string]map[string]int // latest state, published by the next push
 	changed map[string]sets.String
 	sc, dc  *client
+	// types for which a response reached the SotW / delta client during the last op
+	gotS, gotD sets.String
 }
 
 var genClass = map[string]string{
@@ -683,6 +685,7 @@ func (e *equivSys) show() string { return "S:" + showHeld(e.sc) + " D:" + showHe
 // deliver hands every captured response to its client, which applies and ACKs it; repeats while
 // the ACKs trigger further responses (bounded).
 func (e *equivSys) deliver() {
+	e.gotS, e.gotD = sets.New[string](), sets.New[string]()
 	for round := 0; round < 8; round++ {
 		sg, dg := e.ss.got, e.ds.got
 		e.ss.got, e.ds.got = nil, nil
@@ -690,6 +693,7 @@ func (e *equivSys) deliver() {
 			return
 		}
 		for _, w := range sg {
+			e.gotS.Insert(w.short)
 			ct := e.sc.ty[w.short]
 			if isWildcardType(w.short) {
 				ct.held = map[string]int{}
@@ -703,6 +707,7 @@ func (e *equivSys) deliver() {
 			}
 		}
 		for _, w := range dg {
+			e.gotD.Insert(w.short)
 			ct := e.dc.ty[w.short]
 			for _, r := range w.res {
 				ct.held[r.name] = r.ver
@@ -776,17 +781,15 @@ func (e *equivSys) apply(f []string) (out string) {
 			}
 			sc.subscribed, sc.sub = false, nil
 		} else {
-			nonce := sc.nonce
-			if !sc.subscribed {
-				nonce = ""
-			}
+			// a reconnecting client presents the nonce it retained from the previous stream
 			sc.subscribed, sc.sub = true, names
-			e.sotwRequest(t, names, nonce, "-")
+			e.sotwRequest(t, names, sc.nonce, "-")
 		}
 		// delta client
 		dc := e.dc.ty[t]
 		if !dc.subscribed {
 			if len(names) == 0 && !isWildcardType(t) {
+				dc.held = map[string]int{} // nothing wanted of this type any more
 				break
 			}
 			sub := names
@@ -794,7 +797,17 @@ func (e *equivSys) apply(f []string) (out string) {
 				sub = []string{"*"}
 			}
 			dc.subscribed, dc.sub = true, names
-			e.deltaRequest(t, sub, nil, nil, "", "-")
+			if !isWildcardType(t) {
+				// a named resource the client no longer wants is dropped before it reports what it retains
+				want := sets.New(names...)
+				for n := range dc.held {
+					if !want.Contains(n) {
+						delete(dc.held, n)
+					}
+				}
+			}
+			// first request on a stream: report everything retained (initial_resource_versions)
+			e.deltaRequest(t, sub, nil, sortedNames(dc.held), "", "-")
 		} else {
 			add := diffSorted(names, dc.sub)
 			rem := diffSorted(dc.sub, names)
@@ -808,6 +821,21 @@ func (e *equivSys) apply(f []string) (out string) {
 				e.deltaRequest(t, add, rem, nil, "", "-")
 			}
 		}
+	case "reconnect":
+		// both streams break; the server forgets everything about them (fresh proxies, fresh watch
+		// tables, possibly another instance); the clients keep what they hold, their nonces and
+		// subscriptions and will re-send the latter (`sub` ops). The new connection starts from the
+		// latest published snapshot.
+		for _, t := range typeOrder {
+			e.world[t] = e.pending[t]
+			e.sc.ty[t].subscribed = false
+			e.dc.ty[t].subscribed = false
+		}
+		e.ss, e.ds = &sotwStream{}, &deltaStream{}
+		e.dproxy = newProxy("delta-proxy-2", e.push)
+		e.sproxy = newProxy("sotw-proxy-2", e.push)
+		e.dcon = pxds.VerifNewDeltaConnection(e.dproxy, e.ds)
+		e.scon = pxds.VerifNewConnection(e.sproxy, e.ss)
 	case "pushall":
 		for _, t := range typeOrder {
 			e.world[t] = e.pending[t]
@@ -847,6 +875,23 @@ func genEquiv(stream string, seed uint64, n int, outp string) {
 					names = nil
 				}
 				out.Line("sub", t, wire.EncList(names))
+			case 5:
+				if stream == "reconn" {
+					out.Line("reconnect")
+					// re-send some or all subscriptions in a random order, possibly with changes made while away
+					for _, t2 := range wire.Subset(r, types, 4, 5) {
+						if r.Chance(1, 3) {
+							out.Line("world", t2, genResList(r))
+						}
+						names := wire.Subset(r, nameUniverse, 1, 2)
+						if isWildcardType(t2) && r.Chance(5, 6) {
+							names = nil
+						}
+						out.Line("sub", t2, wire.EncList(names))
+					}
+				} else {
+					out.Line("pushall")
+				}
 			default:
 				out.Line("pushall")
 			}
@@ -891,9 +936,24 @@ func oracleLines(stream, in string) []string {
 			}
 			continue
 		}
+		firstS, firstD := false, false
+		if f[0] == "sub" {
+			firstS, firstD = !e.sc.ty[f[1]].subscribed, !e.dc.ty[f[1]].subscribed
+		}
 		res := e.apply(f)
 		if res == "crash" && verdict == "" {
 			verdict = fmt.Sprintf("FAIL never-crashes op=%d", idx-1)
+		}
+		if f[0] == "sub" && verdict == "" {
+			// every first request of a type on a stream (initial or re-sent after a reconnect, whatever
+			// nonce / retained state it presents) must be answered: nothing stays warming
+			wants := len(wire.DecList(f[2])) > 0 || isWildcardType(f[1])
+			if wants && firstS && !e.gotS.Contains(f[1]) {
+				verdict = fmt.Sprintf("FAIL first-request-unanswered op=%d type=%s client=sotw", idx-1, f[1])
+			}
+			if wants && firstD && !e.gotD.Contains(f[1]) {
+				verdict = fmt.Sprintf("FAIL first-request-unanswered op=%d type=%s client=delta", idx-1, f[1])
+			}
 		}
 		if f[0] != "pushall" || verdict != "" {
 			continue
@@ -902,6 +962,9 @@ func oracleLines(stream, in string) []string {
 		// same resources for wildcard and always-answered types; for found-only types equality on
 		// the names that exist (SotW never deletes them explicitly); ECDS delta may hold a superset.
 		for _, t := range equivTypes {
+			if !e.sc.ty[t].subscribed || !e.dc.ty[t].subscribed {
+				continue // e.g. not re-subscribed after a reconnect: what is retained is not maintained
+			}
 			sh, dh := e.sc.ty[t].held, e.dc.ty[t].held
 			for _, n := range nameUniverse {
 				sv, sok := sh[n]
